@@ -766,3 +766,119 @@ package stats
 //@   ensures [each] forall i in 0..len(xs) :: (xs[i] >= d.T ==> result[i] == 1) && (!(xs[i] >= d.T) ==> result[i] == 0)
 //@   loop 1 (i) invariant len(res) == len(xs) && fresh(res) && (forall j in 0..i :: (xs[j] >= d.T ==> res[j] == 1) && (!(xs[j] >= d.T) ==> res[j] == 0))
 //@   assigns nothing
+
+// ---------------------------------------------------------------------
+// Binomial and hypergeometric distributions (C06). Model real.
+
+// mathx.BetaInc / Lchoose as seen from model real: opaque deterministic functions.
+//@ assume func mathx.BetaInc@real
+//@   deterministic
+//@   model real
+//@   trusted only determinism is used; the guard/end-point contract is proved in package mathx (model xreal)
+//@   ensures true
+//@   assigns nothing
+//@ assume func mathx.Lchoose
+//@   deterministic
+//@   model real
+//@   trusted only determinism is used; the guard clauses are proved in package mathx
+//@   ensures true
+//@   assigns nothing
+
+//@ func BinomialDist.PMF
+//@   model real
+//@   ensures [outside] (ifloor(k) < 0 || ifloor(k) > d.N) ==> result == 0
+//@   ensures [inside]  !(ifloor(k) < 0 || ifloor(k) > d.N) ==> result == mathx.Choose(d.N, ifloor(k)) * pow(d.P, ifloor(k)) * pow(1 - d.P, d.N - ifloor(k))
+//@   assigns nothing
+
+//@ func BinomialDist.CDF
+//@   model real
+//@   requires d.N >= 0
+//@   ensures [below]  ifloor(k) < 0 ==> result == 0
+//@   ensures [above]  ifloor(k) >= d.N ==> result == 1
+//@   ensures [wiring] 0 <= ifloor(k) && ifloor(k) < d.N ==> result == mathx.BetaInc(1 - d.P, d.N - ifloor(k), floor(k) + 1)
+//@   assigns nothing
+
+//@ func BinomialDist.Bounds
+//@   model real
+//@   results lo, hi
+//@   ensures [def] lo == 0 && hi == d.N
+//@   assigns nothing
+
+//@ func BinomialDist.Step
+//@   model real
+//@   ensures [def] result == 1
+//@   assigns nothing
+
+//@ func BinomialDist.Mean
+//@   model real
+//@   ensures [def] result == d.N * d.P
+//@   assigns nothing
+
+//@ func BinomialDist.Variance
+//@   model real
+//@   ensures [def] result == d.N * d.P * (1 - d.P)
+//@   assigns nothing
+
+//@ func BinomialDist.NormalApprox
+//@   model real
+//@   ensures [def] result.Mu == d.N * d.P && result.Sigma == sqrt(d.N * d.P * (1 - d.P))
+//@   assigns nothing
+
+//@ func HypergeometicDist.bounds
+//@   model real
+//@   results lo, hi
+//@   ensures [def] lo == max(0, d.Draws + d.K - d.N) && hi == min(d.Draws, d.K)
+//@   assigns nothing
+
+//@ func HypergeometicDist.pmf
+//@   deterministic
+//@   model real
+//@   ensures [def] result == exp(mathx.Lchoose(d.K, k) + mathx.Lchoose(d.N - d.K, d.Draws - k) - mathx.Lchoose(d.N, d.Draws))
+//@   assigns nothing
+
+//@ func HypergeometicDist.sum
+//@   deterministic
+//@   model real
+//@   requires max(0, d.Draws + d.K - d.N) <= k && k <= d.Draws && k <= d.K
+//@   ensures [ge1] result >= 1
+//@   loop 1 (dk) invariant dk >= 1 && sum >= 1 && ak >= 0
+//@   assigns nothing
+
+//@ func HypergeometicDist.PMF
+//@   model real
+//@   ensures [outside] (ifloor(k) < max(0, d.Draws + d.K - d.N) || ifloor(k) > min(d.Draws, d.K)) ==> result == 0
+//@   ensures [inside]  !(ifloor(k) < max(0, d.Draws + d.K - d.N) || ifloor(k) > min(d.Draws, d.K)) ==> result == d.pmf(ifloor(k))
+//@   assigns nothing
+
+//@ func HypergeometicDist.CDF
+//@   model real
+//@   requires d.N >= 0 && 0 <= d.K && d.K <= d.N && 0 <= d.Draws && d.Draws <= d.N
+//@   let ki = ifloor(k)
+//@   ensures [below]   ki < max(0, d.Draws + d.K - d.N) ==> result == 0
+//@   ensures [above]   ki >= min(d.Draws, d.K) ==> result == 1
+//@   ensures [direct]  max(0, d.Draws + d.K - d.N) <= ki && ki < min(d.Draws, d.K) && !(ki > (d.Draws + 1) / (d.N + 1) * (d.K + 1)) ==> result == d.pmf(ki) * d.sum(ki)
+//@   ensures [flipped] max(0, d.Draws + d.K - d.N) <= ki && ki < min(d.Draws, d.K) && ki > (d.Draws + 1) / (d.N + 1) * (d.K + 1) ==> result == 1 - HypergeometicDist{d.N, d.K, d.N - d.Draws}.pmf(d.K - ki - 1) * HypergeometicDist{d.N, d.K, d.N - d.Draws}.sum(d.K - ki - 1)
+//@   assigns nothing
+
+//@ func HypergeometicDist.Bounds
+//@   model real
+//@   results lo, hi
+//@   ensures [def] lo == max(0, d.Draws + d.K - d.N) && hi == min(d.Draws, d.K)
+//@   assigns nothing
+
+//@ func HypergeometicDist.Step
+//@   model real
+//@   ensures [def] result == 1
+//@   assigns nothing
+
+//@ func HypergeometicDist.Mean
+//@   model real
+//@   requires d.N >= 1
+//@   ensures [def] result == (d.Draws * d.K) / float64(d.N)
+//@   assigns nothing
+
+//@ func HypergeometicDist.Variance
+//@   model real
+//@   requires d.N >= 2
+//@   ensures [def] result == float64(d.Draws * d.K * (d.N - d.K) * (d.N - d.Draws)) / (d.N * d.N * (d.N - 1))
+//@   assigns nothing
